@@ -304,6 +304,10 @@ func init() {
 			for _, src := range c06MixedSrcs {
 				kC06Mixed.Do(c, c06MixedCase{Src: src, Input: run.TV{V: []any{1, 2, 3, 4, 5, 6}}})
 			}
+			// registered Go functions: every call sees its own arguments
+			for _, src := range c06CallbackSrcs {
+				kC06Callback.Do(c, c06CallbackCase{Src: src})
+			}
 			// Marshal / Preview / tojson of different values at once
 			for _, t := range c06MarshalCases() {
 				kC06Marshal.Do(c, t)
